@@ -12,7 +12,8 @@ len()/as_slice().len() == len, as_slice().as_ptr() % 64 == 0, every byte zero, a
 allocated_size()*size_of::<T>() a multiple of 64, a position pattern written through as_mut_slice is read back \
 through as_slice and Deref, copy_from_slice round trip, as_mut_ptr == as_slice().as_ptr(), clone is deep (same \
 len/contents/alignment, distinct storage, mutating either side leaves the other unchanged), and so is \
-Clone::clone_from into targets of length 0, len/2, len, len+1, 2*len+65. distinct = hash set \
+Clone::clone_from into targets of length 0, len/2, len, len+1, 2*len+65. Plus, per type, lengths of 2^63 bytes and \
+more (usize::MAX, usize::MAX/size_of T + k, ...): zeroed must panic or report allocated_size() >= len (no view is formed). distinct = hash set \
 over (T, len); non-trivial = len > 0.";
 
 pub trait BElem: Copy + PartialEq + std::fmt::Debug + 'static {
@@ -95,6 +96,10 @@ impl Case for BCase {
     }
     fn shrink(&self) -> Vec<Self> {
         let mut v = Vec::new();
+        if self.len > (1 << 40) {
+            // a huge request is not shrunk: a smaller one may be big enough to exhaust memory instead of being refused
+            return v;
+        }
         for l in [0, self.len / 2, self.len.saturating_sub(1)] {
             if l < self.len {
                 let mut c = self.clone();
@@ -324,6 +329,45 @@ fn protocol<X: BElem>(len: usize) -> Verdict {
     }
 }
 
+/// lengths whose byte size cannot be allocated (>= 2^63 bytes): construction must refuse (panic) — or, if it returns,
+/// the storage must still cover the length. Only `allocated_size()` is consulted: no view of such a buffer is formed.
+fn huge<X: BElem>(len: usize) -> Verdict {
+    let r = mem::catch(|| {
+        let b: AlignedBuffer<X> = unsafe { AlignedBuffer::<X>::zeroed(len) };
+        b.allocated_size()
+    });
+    match r {
+        Err(_) => None,
+        Ok(alloc) if alloc >= len => None,
+        Ok(alloc) => bad(
+            "alloc",
+            format!("zeroed({len}) panics (the request cannot be allocated) or allocated_size() >= {len}"),
+            format!("a buffer of len {len} with allocated_size() = {alloc}"),
+        ),
+    }
+}
+
+fn job_huge<X: BElem>(ctx: &mut Ctx) {
+    let size = std::mem::size_of::<X>();
+    let top = usize::MAX;
+    let mut lens = vec![top, top - 1, top - 63, top / 2 + 1, (top / 2 + 1) + 5, top - top / 64];
+    if size > 1 {
+        // the first lengths whose byte size wraps around
+        let w = top / size + 1;
+        lens.extend_from_slice(&[w, w + 1, w + 64 / size, w + 64 / size + 1, 2 * w, 2 * w + 3]);
+    }
+    for len in lens {
+        let c = BCase {
+            ty: X::NAME,
+            size,
+            len,
+            run: huge::<X>,
+        };
+        ctx.run_case(&c, true, &mut |c| (c.run)(c.len));
+    }
+    ctx.p.bump(&format!("huge:{}(size {})", X::NAME, size), 1);
+}
+
 fn job<X: BElem>(ctx: &mut Ctx, part: usize, parts: usize) {
     let size = std::mem::size_of::<X>();
     let mut lens: Vec<usize> = (0..=4096).collect();
@@ -366,6 +410,8 @@ macro_rules! add_types {
             let name = format!("C16 {} part {}", <$t as BElem>::NAME, part);
             $jobs.push(Job::new(name, $rng, move |ctx| job::<$t>(ctx, part, parts)));
         }
+        let name = format!("C16 {} huge lengths", <$t as BElem>::NAME);
+        $jobs.push(Job::new(name, $rng, move |ctx| job_huge::<$t>(ctx)));
     )*};
 }
 
